@@ -105,7 +105,8 @@ def subst_atoms(atoms, k, term):
         elif isinstance(a, AFold):
             out.append(AFold(st(a.lo), st(a.hi), (lambda j, a=a: subst_atoms(a.body(j), k, term)), a.tag))
         elif isinstance(a, ASub):
-            out.append(ASub(a.name, a.obj, tuple(st(x) for x in a.key), st(a.length)))
+            from .loops import subst_value
+            out.append(ASub(a.name, subst_value(a.obj, k, term), tuple(st(x) for x in a.key), st(a.length)))
         else:
             raise OutOfReach(f"subst over {a!r}")
     return out
@@ -281,6 +282,20 @@ def stream_eq_goals(ctx, impl, spec, what="stream", guard=True):
             break
         a, b = impl[i], spec[j]
         tag = f"{what}.@{pos}"
+        if isinstance(a, AField) and isinstance(b, AField) and a.kind == b.kind and not ctx.entails(eq(a.count, b.count)):
+            # items followed by explicit zero bytes are the same bytes as more items that are zero
+            for side, lst, pos_ in (("impl", impl, i), ("spec", spec, j)):
+                nxt = lst[pos_ + 1] if pos_ + 1 < len(lst) else None
+                cur = lst[pos_]
+                if isinstance(nxt, APad) and not nxt.dontcare:
+                    from .npmodel import fzero
+                    size = ITEMSIZE[cur.kind]
+                    extra = z3.simplify(zint(nxt.n) / size)
+                    if ctx.entails(zint(nxt.n) == extra * size):
+                        zero = fzero(cur.kind) if cur.kind in ("f4", "f8") else z3.IntVal(0)
+                        merged = AField(cur.kind, z3.simplify(zint(cur.count) + extra), Seq(cur.count, cur.seq.get).concat(Seq(extra, lambda i_, zero=zero: zero)))
+                        lst[pos_:pos_ + 2] = [merged]
+            a, b = impl[i], spec[j]
         if isinstance(a, AField) and isinstance(b, AField):
             if not _kinds_compatible(a.kind, b.kind):
                 goals.append((f"{tag}.kind({a.kind} vs layout {b.kind})", Implies(guard, False)))
@@ -394,6 +409,10 @@ class InStream:
             out.append(first)
             return out
             guard += 1
+
+    def skip_empty(self, ctx):
+        while self.cur and conc(alen(ctx, self.cur[0])) == 0:
+            self._pop()
 
     def _pop(self):
         a = self.cur.pop(0)
